@@ -79,7 +79,7 @@ func vfC20CheckSample(s []float64, err error, n int, factor float64) {
 	verifReach("sample")
 }
 
-// H_C20_dirichlet_errors: invalid Dirichlet parameters are errors: fewer than 3 parameters; a first parameter <= 0.
+// H_C20_dirichlet_errors: invalid Dirichlet parameters are errors: fewer than 3 parameters; a first parameter < 0 (= 0: H_C20_dirichlet_zero).
 // bounds: n in 0..4; parameters symbolic; factor symbolic in (0,1e6]; the invalid parameter is the first one (no draw is made before the error)
 // outside: an invalid parameter after a valid one (H_C20_dirichlet_errors_later); NaN parameters; IEEE rounding is outside the claim: floats are exact reals
 func H_C20_dirichlet_errors() {
@@ -98,13 +98,13 @@ func H_C20_dirichlet_errors() {
 		verifReach("too few")
 		return
 	}
-	assume(alpha[0] <= 0)
+	assume(alpha[0] < 0) // exactly 0: H_C20_dirichlet_zero
 	_, err := Dirichlet(factor, alpha...)
-	verifAssert(err != nil, "parameter <= 0: error")
+	verifAssert(err != nil, "parameter < 0: error")
 	verifReach("non-positive")
 }
 
-// H_C20_dirichlet_errors_later: a parameter <= 0 at any position is an error.
+// H_C20_dirichlet_errors_later: a parameter < 0 at any position is an error (= 0: H_C20_dirichlet_zero).
 // bounds: n = 3; the first invalid parameter at position 1 or 2, the valid ones before it symbolic in [0.01,100]; at most 4 draws of math/rand per path (every valid variate before the error accepted at its first proposal, or one rejection when fewer draws are needed)
 // outside: longer rejection runs (they repeat the same loop body on fresh draws); IEEE rounding is outside the claim: floats are exact reals
 //verif: maxrand=4 maxsteps=200000 timeout=60000
@@ -119,9 +119,9 @@ func H_C20_dirichlet_errors_later() {
 			alpha[i] = nondetFloat()
 		}
 	}
-	assume(alpha[bad] <= 0)
+	assume(alpha[bad] < 0) // exactly 0: H_C20_dirichlet_zero
 	_, err := Dirichlet(factor, alpha...)
-	verifAssert(err != nil, "parameter <= 0: error")
+	verifAssert(err != nil, "parameter < 0: error")
 	verifReach("non-positive")
 }
 
